@@ -330,8 +330,13 @@ func (w *worker) runBlock(cs J) (res CaseResult) {
 		}
 		// the model is synchronous, the server is not: when neither reading matches yet, give woken clients
 		// (and connections that were closed while blocked, whose effect has no reply) more time to act
-		for try := 0; try < 4 && d != "" && !strings.HasPrefix(d, "timing:") && !(real != nil && realOk && d2 == ""); try++ {
-			for id, r := range collect(150 * time.Millisecond) {
+		// (after a step of the clock only briefly: what the deadline ends must have ended by then)
+		maxTries, wait := 4, 150*time.Millisecond
+		if c == 0 {
+			maxTries, wait = 1, 100*time.Millisecond
+		}
+		for try := 0; try < maxTries && d != "" && !strings.HasPrefix(d, "timing:") && !(real != nil && realOk && d2 == ""); try++ {
+			for id, r := range collect(wait) {
 				deferred[id] = r
 			}
 			if ob, err = project(obsC, dbs, extra); err != nil {
